@@ -76,6 +76,14 @@ ListOf(s)  == Mk([__list |-> "1"], [i \in { ToString(j - 1) : j \in DOMAIN s } |
 ListSeq(n) == [i \in 1..Cardinality(DOMAIN n.ch) |-> n.ch[ToString(i - 1)]]
 SelectSeq2(s, Test(_)) == SelectSeq(s, Test)
 
+\* where two trees first differ (<<>> when equal): <<path, what>>
+RECURSIVE TreeDiff(_, _, _)
+TreeDiff(a, b, p) ==
+  IF a = b THEN <<>>
+  ELSE IF a.at # b.at THEN <<p, "attrs", a.at, b.at>>
+  ELSE IF DOMAIN a.ch # DOMAIN b.ch THEN <<p, "children", DOMAIN a.ch \ DOMAIN b.ch, DOMAIN b.ch \ DOMAIN a.ch>>
+  ELSE LET l == CHOOSE x \in DOMAIN a.ch : a.ch[x] # b.ch[x] IN TreeDiff(a.ch[l], b.ch[l], Append(p, l))
+
 \* one-line machine-readable output (ToString avoids TLC's pretty-printer line wrapping)
 Out(v) == PrintT(ToString(v))
 \* report one element of a non-empty difference set
